@@ -98,8 +98,9 @@ func init() {
 	}
 	reach := stage{Name: "reachable-states", Harness: "seats", Test: "TestReachableStates", Mode: "enum", Shards: 1}
 	plans["C08"] = plan{Level: "exploration", Assume: seatAssume,
-		Rule:   "cases = (a) every transition from every seat-manager state reachable with <= 4 seats (thorough 5), each path re-executed on the real implementation; (b) rapid histories on 2..10 seats; (c) newcomer-between scenarios (k seated players, j hands, a newcomer on a drawn empty seat strictly between dealer and big blind, then 2*max hands); non-trivial = Next() success with a non-playable seat among the first three clockwise from the dealer; scenario with a valid in-between seat",
-		Stages: []stage{reach, hist(500000, 12000000), {Name: "newcomer", Harness: "seats", Test: "TestNewcomerBetween", Mode: "rapid", Quick: 150000, Thorough: 3000000}}}
+		Rule: "cases = (a) every transition from every seat-manager state reachable with <= 4 seats (thorough 5), each path re-executed on the real implementation; (b) rapid histories on 2..10 seats; (c) newcomer-between scenarios (k seated players, j hands, a newcomer on a drawn empty seat strictly between dealer and big blind, then 2*max hands); (d) the table glue: join / sit-in / sit-out / leave / next-hand histories on a table.Table driven without its loop (verif hook), position labels and playable flags of every player compared with the rule; non-trivial = Next() success with a non-playable seat among the first three clockwise from the dealer; scenario with a valid in-between seat",
+		Stages: []stage{reach, hist(500000, 12000000), {Name: "newcomer", Harness: "seats", Test: "TestNewcomerBetween", Mode: "rapid", Quick: 150000, Thorough: 3000000},
+			{Name: "table-glue", Harness: "seats", Test: "TestTablePositions", Mode: "rapid", Quick: 60000, Thorough: 1500000}}}
 	plans["C17"] = plan{Level: "exploration", Assume: seatAssume,
 		Rule:   "cases = every transition from every reachable state with <= 4 seats (thorough 5) + rapid histories; at every Next(): button = first seat able to play clockwise after the old dealer, refusal exactly with the insufficient-players error; non-trivial = Next() where the old dealer can no longer play or an occupied non-playable seat lies between old and new dealer",
 		Stages: []stage{reach, hist(600000, 15000000)}}
